@@ -4,6 +4,7 @@ import WalrusVerif.Model.WalKey
 import WalrusVerif.Model.Meta
 import WalrusVerif.Model.Engine
 import WalrusVerif.Model.Quirks
+import WalrusVerif.Model.Frame
 /-!
 `wdriver`: line-protocol driver.  One request per line on stdin, one reply per line on stdout.
 It runs the very definitions the theorems in `WalrusVerif/Props` are about.
@@ -36,6 +37,7 @@ structure DState where
   cfg : Eng.Cfg := Eng.smallCfg
   mode : Eng.Mode := .strict
   proc : Eng.Proc := {}
+  backend : Frame.Backend := {}
 
 def replyStr : Meta.Reply → String
   | .exists_ => "EXISTS" | .created => "CREATED" | .rolled => "ROLLED" | .node => "NODE"
@@ -178,6 +180,30 @@ def handleEng (st : DState) (toks : List String) : Option (DState × String) :=
     | none => some (st, "bad-op")
   | _ => none
 
+/-! ### client protocol (C24) -/
+
+def utf8Dec (bs : List UInt8) : Option (List Char) :=
+  (String.fromUTF8? (ByteArray.mk bs.toArray)).map String.toList
+
+/-- run `serve` and return the responses together with the backend after them -/
+def serveAll (fuel : Nat) (inp : List UInt8) (b : Frame.Backend) : List (List Char) :=
+  Frame.serve utf8Dec fuel inp b
+
+def handleFrame (st : DState) (toks : List String) : Option (DState × String) :=
+  match toks with
+  | ["frame", "reset"] => some ({ st with backend := {} }, "ok")
+  | ["frame", "serve", h] =>
+    match (if h = "-" then some [] else Hex.decodeBytes h.toList) with
+    | some bs =>
+      let rs := serveAll (bs.length + 1) bs st.backend
+      some (st, "[" ++ ",".intercalate (rs.map fun r => Hex.encodeBytes (String.ofList r).toUTF8.toList |> fun x => if x = "" then "-" else x) ++ "]")
+    | none => some (st, "bad-op")
+  | ["frame", "ws", n] =>
+    match n.toNat? with
+    | some k => some (st, if Frame.isWs (Char.ofNat k) then "1" else "0")
+    | none => some (st, "bad-op")
+  | _ => none
+
 def step (st : DState) (line : String) : DState × String :=
   let toks := (line.trimAscii.toString.splitOn " ").filter (· ≠ "")
   match handlePure toks with
@@ -188,7 +214,10 @@ def step (st : DState) (line : String) : DState × String :=
     | none =>
       match handleEng st toks with
       | some r => r
-      | none => (st, "bad-op")
+      | none =>
+        match handleFrame st toks with
+        | some r => r
+        | none => (st, "bad-op")
 
 partial def loop (h : IO.FS.Stream) (out : IO.FS.Stream) (st : DState) : IO Unit := do
   let line ← h.getLine
